@@ -274,7 +274,7 @@ static void setup (const char *init) {
 	if (strcmp (init, "=") != 0) snprintf (cur_init, sizeof cur_init, "%s", init);
 	parse_init (cur_init);
 	S.ideal = rt_ideal_reset != NULL;
-	S.hbdata = getenv ("VERIF_HB") != NULL;
+	S.hbdata = getenv ("VERIF_HBDATA") != NULL;       /* client cells around the hand-offs (C03's single-writer scenarios); VERIF_HB alone only turns the race detector on */
 	S.cells = rt_malloc (sizeof (int) * RT_MAXT); memset (S.cells, 0, sizeof (int) * RT_MAXT); rt_name (S.cells, sizeof (int) * RT_MAXT, "cells");
 	if (rt_ideal_reset) rt_ideal_reset ();
 	if (S.kind == K_COUNTER) {
